@@ -378,3 +378,16 @@ func ruleVisitorCoverage(funcName, ruleTot, ruleChild string, minCases int) func
 		_ = strings.Join
 	}
 }
+
+// nodeText returns the source text of a declaration (used only for coarse "calls X anywhere" checks).
+func nodeText(c *core.Ctx, d *ast.FuncDecl) string {
+	var sb strings.Builder
+	ast.Inspect(d.Body, func(n ast.Node) bool {
+		if ce, ok := n.(*ast.CallExpr); ok {
+			sb.WriteString(types.ExprString(ce.Fun))
+			sb.WriteString("( ")
+		}
+		return true
+	})
+	return sb.String()
+}
